@@ -29,6 +29,31 @@ theorem from_cbor_valid (pinned : Bool) (s : Ledger) (bytes : Bytes) (b : Bundle
     lookup s.nextHandle (step pinned s (.fromCbor bytes)).1.objs = lookup s.nextHandle (s.objs ++ [(s.nextHandle, Obj.bundle b (fresh s 1))]) := by
   simp [step, hd, hv, addObj]
 
+/-- **C14 (metadata, fix F13).** The metadata query on a live bundle handle answers with the
+    printed source and destination, the creation timestamp and the lifetime of that bundle —
+    exactly when both strings can be C strings (no NUL byte); otherwise it answers null, allocates
+    nothing and aborts nothing.  (On the pinned tree `CString::new(..).unwrap()` aborted the
+    process for a valid decoded bundle whose source is e.g. `dtn://a\0b/x`.) -/
+theorem metadata_spec (pinned : Bool) (s : Ledger) (h : Nat) (b : Bundle) (a : List Nat)
+    (hl : lookup h s.objs = some (.bundle b a)) :
+    (cStringOk (printEid b.primary.src) = true ∧ cStringOk (printEid b.primary.dst) = true →
+      (step pinned s (.getMetadata h)).2 =
+        .mdata s.nextHandle (printEid b.primary.src) (printEid b.primary.dst) b.primary.ts b.primary.seq b.primary.lifetime) ∧
+    (¬ (cStringOk (printEid b.primary.src) = true ∧ cStringOk (printEid b.primary.dst) = true) →
+      step pinned s (.getMetadata h) = (s, .null)) := by
+  constructor
+  · rintro ⟨h1, h2⟩; simp [step, hl, h1, h2, addObj]
+  · intro hn
+    simp only [step, hl]
+    by_cases h1 : cStringOk (printEid b.primary.src) = true <;> by_cases h2 : cStringOk (printEid b.primary.dst) = true <;>
+      simp_all
+
+/-- a source with a NUL byte: the query answers null (non-vacuity of the second clause) -/
+example : (match (step false (addObj init (Obj.bundle
+    { primary := { version := 7, flags := 0, crc := .no, dst := .dtn 1 [47, 47, 97, 47], src := .dtn 1 [47, 47, 97, 0, 98, 47],
+                   rpt := .null 1 0, ts := 5, seq := 0, lifetime := 0, fragOff := 0, total := 0 },
+      canon := [] }) 1).1 (.getMetadata 0)).2 with | .null => true | _ => false) = true := by decide +kernel
+
 /-! ### the ledger invariant -/
 
 structure Inv (s : Ledger) : Prop where
@@ -255,7 +280,15 @@ theorem inv_step (s : Ledger) (c : Call) (hi : Inv s) : Inv (step false s c).1 :
     simp only [step]
     cases hl : lookup h s.objs with
     | none => exact hi
-    | some o => cases o <;> first | exact hi | exact inv_addObj s _ _ (fun _ => rfl) hi
+    | some o =>
+      cases o with
+      | bundle b a =>
+        simp only
+        split
+        · exact inv_addObj s _ _ (fun _ => rfl) hi
+        · exact hi
+      | buffer c a => exact hi
+      | mdata a => exact hi
   | payload h =>
     simp only [step]
     cases hl : lookup h s.objs with
